@@ -98,6 +98,17 @@ impl ProofOfSignatureKnowledge for PokSignatureProof {
             return Err(Error::General("Invalid public key"));
         }
 
+        // one response per hidden message plus the two for t and m';
+        // sum_of_products silently stops at the shorter slice
+        let known = revealed_messages
+            .iter()
+            .map(|(idx, _)| *idx)
+            .filter(|idx| *idx < public_key.y.len())
+            .collect::<BTreeSet<usize>>();
+        if self.proof.len() != public_key.y.len() - known.len() + 2 {
+            return Err(Error::General("Invalid proof - response count"));
+        }
+
         let mut points = Vec::new();
         let mut scalars = Vec::new();
 
